@@ -54,7 +54,7 @@ package par
 
 // ---- Work (C09): rely-guarantee over the runner bookkeeping ----
 //@ property C09: (*Work).init, (*Work).Add, (*Work).Do, (*Work).runner
-//@ shared Work.waiting, Work.todo, Work.added, gS, gK, gX, gF
+//@ shared Work.waiting, Work.todo, Work.added, gS, gK, gX, gF, gSpawned
 //
 //@ pure func sum4(a int, b int, c int, d int) int = a + b + c + d
 //
@@ -64,12 +64,13 @@ package par
 //@ ginv workNonneg: forall x int {gS[x]} {gK[x]} {gX[x]} {gF[x]} :: gS[x] >= 0 && gK[x] >= 0 && gX[x] >= 0 && gF[x] >= 0
 //@ ginv workWaiting: forall x int {fld(Work, waiting)[x]} :: !gHeld[x] ==> fld(Work, waiting)[x] == gS[x] + gK[x] + gX[x]
 //@ ginv workBound: forall x int {gF[x]} :: !gHeld[x] && fld(Work, running)[x] > 0 ==> sum4(gS[x], gK[x], gX[x], gF[x]) <= fld(Work, running)[x]
+//@ ginv workSpawned: forall x int {gSpawned[x]} :: gSpawned[x] >= 0 && (fld(Work, running)[x] > 0 ==> gSpawned[x] <= fld(Work, running)[x]) && sum4(gS[x], gK[x], gX[x], gF[x]) <= gSpawned[x]
 //@ ginv workDone: forall x int {gS[x]} :: !gHeld[x] && fld(Work, running)[x] > 0 && fld(Work, waiting)[x] == fld(Work, running)[x] ==> gS[x] == 0
 //@ ginv workAwake: forall x int {gS[x]} :: !gHeld[x] && len(fld(Work, todo)[x]) > 0 && gX[x] == 0 && fld(Work, running)[x] > 0 ==> gS[x] < fld(Work, running)[x]
 //
-//@ rely workRely: forall x int {fld(Work, waiting)[x]} {fld(Work, todo)[x]} {gS[x]} {gK[x]} {gX[x]} {gF[x]} :: (x == myHeld && x != 0 ==> fld(Work, waiting)[x] == old(fld(Work, waiting))[x] && sameSlice(fld(Work, todo)[x], old(fld(Work, todo))[x]) && fld(Work, added)[x] == old(fld(Work, added))[x] && gS[x] == old(gS)[x] && gK[x] == old(gK)[x] && gX[x] == old(gX)[x] && gF[x] == old(gF)[x]) && (myR == 1 && sum4(old(gS)[x], old(gK)[x], old(gX)[x], old(gF)[x]) <= fld(Work, running)[x] - 1 ==> sum4(gS[x], gK[x], gX[x], gF[x]) <= fld(Work, running)[x] - 1) && (myF == 1 && old(gF)[x] >= 1 ==> gF[x] >= 1)
+//@ rely workRely: forall x int {fld(Work, waiting)[x]} {fld(Work, todo)[x]} {gS[x]} {gK[x]} {gX[x]} {gF[x]} :: (x == myHeld && x != 0 ==> fld(Work, waiting)[x] == old(fld(Work, waiting))[x] && sameSlice(fld(Work, todo)[x], old(fld(Work, todo))[x]) && fld(Work, added)[x] == old(fld(Work, added))[x] && gS[x] == old(gS)[x] && gK[x] == old(gK)[x] && gX[x] == old(gX)[x] && gF[x] == old(gF)[x]) && (myR == 1 && sum4(old(gS)[x], old(gK)[x], old(gX)[x], old(gF)[x]) <= fld(Work, running)[x] - 1 ==> sum4(gS[x], gK[x], gX[x], gF[x]) <= fld(Work, running)[x] - 1) && (myF == 1 && old(gF)[x] >= 1 ==> gF[x] >= 1) && (x == myDo && x != 0 ==> gSpawned[x] == old(gSpawned)[x]) && gSpawned[x] >= old(gSpawned)[x] && (myR == 1 && sum4(old(gS)[x], old(gK)[x], old(gX)[x], old(gF)[x]) <= old(gSpawned)[x] - 1 ==> sum4(gS[x], gK[x], gX[x], gF[x]) <= gSpawned[x] - 1)
 //
-//@ guar workGuar: forall x int {fld(Work, waiting)[x]} {fld(Work, todo)[x]} {gS[x]} {gK[x]} {gX[x]} {gF[x]} :: (x != myHeld && x != old(myHeld) ==> fld(Work, waiting)[x] == old(fld(Work, waiting))[x] && sameSlice(fld(Work, todo)[x], old(fld(Work, todo))[x]) && fld(Work, added)[x] == old(fld(Work, added))[x] && gS[x] == old(gS)[x] && gK[x] == old(gK)[x] && gX[x] == old(gX)[x] && gF[x] == old(gF)[x])
+//@ guar workGuar: forall x int {fld(Work, waiting)[x]} {fld(Work, todo)[x]} {gS[x]} {gK[x]} {gX[x]} {gF[x]} :: (x != myHeld && x != old(myHeld) ==> fld(Work, waiting)[x] == old(fld(Work, waiting))[x] && sameSlice(fld(Work, todo)[x], old(fld(Work, todo))[x]) && fld(Work, added)[x] == old(fld(Work, added))[x] && gS[x] == old(gS)[x] && gK[x] == old(gK)[x] && gX[x] == old(gX)[x] && gF[x] == old(gF)[x]) && (x != myDo ==> gSpawned[x] == old(gSpawned)[x])
 
 // sync.Cond on a Work (baseOf(c) is the Work): Wait is a blocking call in two phases;
 // it returns only to a runner that was moved from sleeping to signalled.
@@ -104,14 +105,25 @@ package par
 // runner: f runs outside the lock while the runner is counted in gF; the runner
 // returns only when no call of f is in progress and nothing is left to do.
 //@ func (*Work).runner
+//@   onspawn myHeld = 0; myR = 1; myF = 0
 //@   requires w != nil && myHeld == 0 && myR == 1 && myF == 0 && w.running > 0
-//@   requires sum4(gS[w], gK[w], gX[w], gF[w]) <= w.running - 1
+//@   requires sum4(gS[w], gK[w], gX[w], gF[w]) <= gSpawned[w] - 1 && gSpawned[w] <= w.running
 //@   callee w.f(item): pure
 //@   at call (*sync.Mutex).Lock#1: ghost_after gF[w] = gF[w] - myF; myR = myR + myF; myF = 0
 //@   at call (*sync.Mutex).Unlock#1: requires gF[w] == 0 && len(w.todo) == 0
 //@   at call (*sync.Mutex).Unlock#1: ghost gX[w] = gX[w] + 1; myR = 0
 //@   at call (*sync.Mutex).Unlock#2: ghost gF[w] = gF[w] + 1; myF = 1; myR = 0
 //@   at call field:w.f#1: requires myHeld == 0 && myF == 1 && gF[w] >= 1
-//@   loop 1: invariant myHeld == 0 && myR + myF == 1 && myR >= 0 && myF >= 0 && (myR == 1 ==> sum4(gS[w], gK[w], gX[w], gF[w]) <= w.running - 1) && (myF == 1 ==> gF[w] >= 1)
-//@   loop 2: invariant myHeld == w && myR == 1 && myF == 0 && sum4(gS[w], gK[w], gX[w], gF[w]) <= w.running - 1 && w.waiting == gS[w] + gK[w] + gX[w]
+//@   loop 1: invariant myHeld == 0 && myR + myF == 1 && myR >= 0 && myF >= 0 && (myR == 1 ==> sum4(gS[w], gK[w], gX[w], gF[w]) <= gSpawned[w] - 1) && gSpawned[w] <= w.running && (myF == 1 ==> gF[w] >= 1)
+//@   loop 2: invariant myHeld == w && gHeld[w] && myR == 1 && myF == 0 && sum4(gS[w], gK[w], gX[w], gF[w]) <= gSpawned[w] - 1 && gSpawned[w] <= w.running && w.waiting == gS[w] + gK[w] + gX[w]
+//@   ensures myHeld == 0
+
+// Do: starts exactly n-1 runner goroutines and becomes a runner itself, on a Work
+// that has no runner yet; every runner starts with its own unit of "running".
+//@ func (*Work).Do
+//@   requires w != nil && n >= 1 && myHeld == 0 && myR == 0 && myF == 0 && myDo == w
+//@   requires w.running == 0 && gS[w] == 0 && gK[w] == 0 && gX[w] == 0 && gF[w] == 0 && gSpawned[w] == 0 && w.waiting == 0 && !gHeld[w]
+//@   at call go:(*par.Work).runner#1: ghost gSpawned[w] = gSpawned[w] + 1
+//@   at call (*par.Work).runner#1: ghost gSpawned[w] = gSpawned[w] + 1; myR = 1
+//@   loop 1: invariant w.running == n && n >= 1 && myHeld == 0 && myR == 0 && myF == 0 && myDo == w && 0 <= rangeint && gSpawned[w] == rangeint && rangeint < n - 1
 //@   ensures myHeld == 0
